@@ -100,12 +100,12 @@ class Version(object):
         return str(self)
 
     def __hash__(self):
-        return hash(self.tuple())
+        return hash((self.epoch, get_parts(self.upstream), get_parts(self.revision)))
 
     def __eq__(self, other):
         if not isinstance(other, self.__class__):
             return NotImplemented
-        return self.tuple() == other.tuple()
+        return compare_version_objects(self, other) == 0
 
     def __ne__(self, other):
         return not self.__eq__(other)
@@ -350,6 +350,23 @@ def compare_version_objects(version1, version2):
     if version1.revision or version2.revision:
         return compare_strings(version1.revision, version2.revision)
     return 0
+
+
+def get_parts(version):
+    """
+    Return a tuple of (non-digit prefix, number) pairs for an upstream or
+    revision ``version`` string, split the way compare_strings() compares it:
+    two strings that compare equal have the same parts.
+    """
+    characters = list(version or "")
+    parts = []
+    while characters:
+        prefix = "".join(get_non_digit_prefix(characters))
+        parts.append((prefix, get_digit_prefix(characters)))
+    # a missing part counts as an empty prefix and a zero
+    while parts and parts[-1] == ("", 0):
+        parts.pop()
+    return tuple(parts)
 
 
 def get_digit_prefix(characters):
